@@ -104,9 +104,9 @@ func (api *API) encodeBasedOnType(
 	case reflect.Struct:
 		return api.encodeStruct(ctx, value, valueI, valueType, ts, opts)
 	case reflect.Slice:
-		return api.encodeSlice(ctx, value, valueType, ts, opts)
+		return withTypeCode(ts)(api.encodeSlice(ctx, value, valueType, ts, opts))
 	case reflect.Map:
-		return api.encodeMap(ctx, value, valueType, ts, opts)
+		return withTypeCode(ts)(api.encodeMap(ctx, value, valueType, ts, opts))
 	case reflect.Array:
 		return api.encodeArray(ctx, value, ts, opts)
 	case reflect.Interface:
@@ -130,19 +130,19 @@ func (api *API) encodeBasedOnType(
 		}
 		seri := serializer.NewSerializer()
 
-		return seri.WriteString(
+		return withTypeCode(ts)(seri.WriteString(
 			str,
 			serializer.SeriLengthPrefixType(lengthPrefixType),
 			func(err error) error {
 				return ierrors.Wrap(err, "failed to write string value to serializer")
-			}, minLen, maxLen).Serialize()
+			}, minLen, maxLen).Serialize())
 
 	case reflect.Bool:
 		seri := serializer.NewSerializer()
 
-		return seri.WriteBool(value.Bool(), func(err error) error {
+		return withTypeCode(ts)(seri.WriteBool(value.Bool(), func(err error) error {
 			return ierrors.Wrap(err, "failed to write bool value to serializer")
-		}).Serialize()
+		}).Serialize())
 
 	case reflect.Int8, reflect.Int16, reflect.Int32, reflect.Int64,
 		reflect.Uint8, reflect.Uint16, reflect.Uint32, reflect.Uint64,
@@ -152,13 +152,36 @@ func (api *API) encodeBasedOnType(
 		valueI = value.Interface()
 		seri := serializer.NewSerializer()
 
-		return seri.WriteNum(valueI, func(err error) error {
+		return withTypeCode(ts)(seri.WriteNum(valueI, func(err error) error {
 			return ierrors.Wrap(err, "failed to write number value to serializer")
-		}).Serialize()
+		}).Serialize())
 	default:
 	}
 
 	return nil, ierrors.Errorf("can't encode: unsupported type %T", valueI)
+}
+
+// withTypeCode prepends the type code of the type settings (if they have one) to the serialized form of a value whose
+// kind has no place of its own for it (structs and byte arrays write it themselves). The type code is how the decoder
+// finds the implementation of an interface, so it has to be part of the serialized form of every kind of object.
+func withTypeCode(ts TypeSettings) func(b []byte, err error) ([]byte, error) {
+	return func(b []byte, err error) ([]byte, error) {
+		objectType := ts.ObjectType()
+		if err != nil || objectType == nil {
+			return b, err
+		}
+
+		seri := serializer.NewSerializer()
+		seri.WriteNum(objectType, func(err error) error {
+			return ierrors.Wrap(err, "failed to write object type code into serializer")
+		})
+		prefix, err := seri.Serialize()
+		if err != nil {
+			return nil, err
+		}
+
+		return byteutils.ConcatBytes(prefix, b), nil
+	}
 }
 
 func (api *API) encodeInterface(
@@ -299,7 +322,7 @@ func (api *API) encodeArray(ctx context.Context, value reflect.Value, ts TypeSet
 	}
 
 	// if it is an array of objects, handle the array like a slice
-	return api.encodeSlice(ctx, sliceValue, sliceValueType, ts, opts)
+	return withTypeCode(ts)(api.encodeSlice(ctx, sliceValue, sliceValueType, ts, opts))
 }
 
 func (api *API) encodeSlice(ctx context.Context, value reflect.Value, valueType reflect.Type,
